@@ -191,9 +191,9 @@ func main() {
 		Assumptions: []string{"refir reference evaluator", "no empty initial blocks, no wrapping ranges"},
 		Cases: func(t string) int {
 			if t == "thorough" {
-				return 200000
+				return 1500000
 			}
-			return 30000
+			return 60000
 		},
 		Floor: func(t string) int {
 			if t == "thorough" {
